@@ -116,6 +116,13 @@ def plan(tier, seed):
     orp = {'tag': 'div', 'close_indent': 0, 'children': [
         'A', {'tag': 'p', 'omit': L(0), 'replace': ['text', {'pipe': [L(1), py('default')]}], 'children': ['x']}, 'B']}
     jobs.append({'prog': orp, 'vars': [[0, 'out', 0], [1, 'out', 1], [0, 'lbool', 0]], 'label': 'omit-and-replace'})
+    # names the template class offers as builtins (extra_builtins option): a render argument of that name wins
+    eb = {'tag': 'div', 'close_indent': 0, 'children': [
+        'A', {'tag': 'p', 'children': [{'interp': py('eb1')}, '|', {'interp': py('eb2 + 1')}, '|',
+                                       {'interp': {'pipe': [py('eb3'), py("'unbound'")]}}]},
+        {'tag': 'q', 'define': [['local', 'eb2', py('50')]], 'children': [{'interp': py('eb2')}]}, {'interp': py('eb2')}, 'B']}
+    jobs.append({'prog': eb, 'vars': [['eb1', 'maybe', 0], ['eb2', 'maybe', 1], ['eb3', 'maybe', 2]], 'label': 'extra-builtins',
+                 'extra_builtins': {'eb1': 7, 'eb2': 8}})
     # names: template variable before builtin; attribute access falls back to item lookup
     names = {'tag': 'div', 'close_indent': 0, 'children': [
         'A', {'tag': 'p', 'children': [{'interp': py("rec('n', len) if len == 5 else rec('b', len('ab'))")}]},
